@@ -28,6 +28,8 @@ import (
 	"strings"
 	"sync"
 	"time"
+
+	"github.com/Comcast/rulio/core/verifhook"
 	// "code.google.com/p/rog-go/exp/deepcopy" // Broken
 )
 
@@ -272,6 +274,7 @@ func (s *IndexedState) Add(ctx *Context, id string, x Map) (string, error) {
 		return "", err
 	}
 	d := Pair{[]byte(id), js}
+	verifhook.Point("state.add.gap")
 
 	err = s.Store.Add(ctx, s.Name, &d)
 	if err != nil {
@@ -783,6 +786,7 @@ func (s *IndexedState) FindCachedRules(ctx *Context, event Map) (map[string]*Rul
 	if err != nil {
 		return nil, err
 	}
+	verifhook.Point("state.rulecache.gap")
 
 	acc := make(map[string]*Rule)
 	for id, r := range rules {
